@@ -847,7 +847,7 @@ orc_x86_compile (OrcCompiler *compiler)
   t = compiler->target->target_data;
   align_var = orc_x86_get_max_alignment_var (t, compiler);
   if (align_var < 0) {
-    orc_x86_assemble_copy (compiler);
+    /* no array variable at all: the error has been recorded */
     return;
   }
 
